@@ -20,6 +20,9 @@ CHECKS = {
  "C10": dict(cat="model_checking", eng="e1", tech="explicit-state exploration; every refused call at every reachable state compared bit-for-bit, refused calls extended differentially",
    text="At every state of the closed tree search (plus invalid names and escaping paths as extra calls) and of the content enumeration, every call refused with NotFound / AlreadyExists / InvalidInput must leave the byte image identical; refused calls are also extended by every continuation so that hidden in-memory effects would show as a later divergence from the model.",
    note="Trusted: reference model for the continuation comparison. Out-of-range seeks on handles are covered by the C06 check.", ref="4 E1"),
+ "C15": dict(cat="model_checking", eng="e1", tech="exhaustive enumeration of prefix states x net-zero cycles x repetitions on the real code; oracle on backing-file length",
+   text="For every prefix state (fill-level seeds around whole-sector multiples of the mini stream, MiniFAT and FAT, crossed with all prefix op sequences) and every cycle of a fixed list (create+write+remove for each boundary size, overwrite there-and-back, grow/shrink, storage create/remove, recursive create/remove, five entries), the cycle is run three times live and with a reopen between repetitions; the model confirms the logical state returned; the file length must be the same after repetitions 1, 2 and 3.",
+   note="The first repetition may grow the file; only growth from the second repetition on is a violation. Trusted: reference model for net-zero confirmation.", ref="4 E1 (C15)"),
 }
 
 NOT_YET = {
